@@ -62,6 +62,7 @@ fn main() {
         "find-c03" => find2::gen_c03(&mut w, &tier, seed),
         "find-c11" => find2::gen_c11(&mut w, &tier, seed),
         "find-c14" => find2::gen_c14(&mut w, &tier, seed),
+        "find-c15" => find2::gen_c15(&mut w, &tier, seed),
         "find-c16" => find2::gen_c16(&mut w, &tier, seed),
         "find-c18" => findlayer::gen_c18(&mut w, &tier, seed),
         "find-c19" => findlayer::gen_c19(&mut w, &tier, seed),
